@@ -29,14 +29,17 @@ Definition body_mismatch : list string :=
   map fst (filter (fun kv => negb (oseqb (lookup (fst kv) p_pool_impl) (Some (snd kv)))) s_pool_impl)
   ++ map fst (filter (fun kv => negb (oseqb (lookup (fst kv) p_balance_impl) (Some (snd kv)))) s_balance_impl)
   ++ map fst (filter (fun kv => negb (is_some (lookup (fst kv) s_balance_impl))) p_balance_impl)
-  ++ (if String.eqb p_pool_is_pure s_pool_is_pure then [] else ["is_pure"]).
+  ++ map fst (filter (fun kv => negb (is_some (lookup (fst kv) s_pool_impl))) p_pool_impl)
+  ++ (if String.eqb p_pool_is_pure s_pool_is_pure then [] else ["is_pure"])
+  ++ (if String.eqb p_cancel_amounts_fn s_cancel_amounts_fn && negb (String.eqb p_cancel_amounts_fn "") then [] else ["cancel_amounts"]).
 Lemma pool_bodies_agree : body_mismatch = []. Proof. vm_compute. reflexivity. Qed.
 
-(* the Pool trait methods the program overrides and the SDK leaves to the trait default *)
+(* the Pool trait methods the program overrides and the SDK leaves to the trait default: none
+   (checked_cancel_amounts was missing until fix c40-sdk-pool-cancel-override) *)
 Definition sdk_missing_overrides : list string :=
   map fst (filter (fun kv => negb (is_some (lookup (fst kv) s_pool_impl))) p_pool_impl).
-Lemma sdk_lacks_cancel_override : sdk_missing_overrides = ["checked_cancel_amounts"].
-Proof. vm_compute. reflexivity. Qed.
+Lemma sdk_has_all_overrides : sdk_missing_overrides = [] /\ is_some (lookup "checked_cancel_amounts" s_pool_impl) = true.
+Proof. vm_compute. split; reflexivity. Qed.
 
 (* parameter slots: the SDK slot reads the same cell as the program slot (swap_fee_params: under the
    swap / deposit / withdrawal pricing kinds; under `shift` the two impact fee factors are the literal 0
@@ -70,12 +73,11 @@ Definition slot_mismatch : list (string * bool) :=
 Lemma sdk_slots_agree : slot_mismatch = []. Proof. vm_compute. reflexivity. Qed.
 
 (* ---------- pool operations (models of Model.v, tied to both Pool types by the PoolOp cases) ---------- *)
-Lemma cancel_agree : forall byte l s,
-  pure byte = true \/ Z.min l s <= 2 ^ 127 - 1 -> cancel_sdk byte l s = cancel_prog byte l s.
+(* SDK and program netting agree on ALL pools (any flag byte, any amounts) *)
+Lemma cancel_agree : forall byte l s, cancel_sdk byte l s = cancel_prog byte l s.
 Proof.
-  intros byte l s H. unfold cancel_sdk. destruct (pure byte) eqn:P; [reflexivity|].
-  destruct H as [H|H]; [discriminate|].
-  destruct (2 ^ 127 - 1 <? Z.min l s) eqn:E; [apply Z.ltb_lt in E; lia|reflexivity].
+  intros byte l s. unfold cancel_sdk, cancel_prog. destruct (pure byte); [reflexivity|].
+  destruct (s <=? l) eqn:E; [apply Z.leb_le in E|apply Z.leb_gt in E]; f_equal; lia.
 Qed.
 
 Lemma cancel_prog_spec : forall byte l s, 0 <= l -> 0 <= s -> pure byte = false ->
@@ -85,7 +87,8 @@ Proof.
   destruct (s <=? l) eqn:E; [apply Z.leb_le in E|apply Z.leb_gt in E]; f_equal; lia.
 Qed.
 
-Lemma cancel_refuted :
+(* why both types override: the trait default fails above i128::MAX where the override succeeds *)
+Lemma default_cancel_refuted :
   exists l s, 0 <= l < 2 ^ 128 /\ 0 <= s < 2 ^ 128
-    /\ cancel_prog 0 l s = RPool 0 (2 ^ 127 - 1) 0 /\ cancel_sdk 0 l s = RErr.
+    /\ cancel_prog 0 l s = RPool 0 (2 ^ 127 - 1) 0 /\ cancel_sdk 0 l s = RPool 0 (2 ^ 127 - 1) 0 /\ cancel_default 0 l s = RErr.
 Proof. exists (2 ^ 128 - 1), (2 ^ 127). vm_compute. repeat split; discriminate. Qed.
